@@ -666,8 +666,8 @@ static PyObject* base_gemv(PyObject *self, PyObject *args, PyObject *kwrds)
     return Py_BuildValue("");
 
   if (oA < 0) err_nn_int("offsetA");
-  if (n > 0 && m > 0 && oA + (n-1)*MAX(1,X_NROWS(A)) + m >
-  X_NROWS(A)*X_NCOLS(A))
+  if (n > 0 && m > 0 && (m > X_NROWS(A) ||
+      oA + (n-1)*MAX(1,X_NROWS(A)) + m > X_NROWS(A)*X_NCOLS(A)))
     err_buf_len("A");
 
   if (ox < 0) err_nn_int("offsetx");
@@ -918,7 +918,7 @@ static PyObject* base_symv(PyObject *self, PyObject *args, PyObject *kwrds)
   if (n == 0) return Py_BuildValue("");
 
   if (oA < 0) err_nn_int("offsetA");
-  if (oA + (n-1)*ldA + n > len(A)) err_buf_len("A");
+  if (n > ldA || oA + (n-1)*ldA + n > len(A)) err_buf_len("A");
   if (ox < 0) err_nn_int("offsetx");
   if (ox + (n-1)*abs(ix) + 1 > len(x)) err_buf_len("x");
   if (oy < 0) err_nn_int("offsety");
